@@ -44,6 +44,12 @@ func commonSweeps(tier string) []sweep {
 	}
 	out = append(out, sweep{"P2m", rm.Curly, pairs(pathAtoms(um)), crossReqs(um.Paths(), um.QMethods, rs.PathSweepHeaders[:1], false)})
 	out = append(out, wideSweep(rm.Curly))
+	// (M1/M2) every route method x every request method (HEAD, PATCH, OPTIONS ... declared through
+	// the per-method shortcuts) on a service with a non-root path
+	allMethods := []string{"GET", "POST", "PUT", "DELETE", "PATCH", "HEAD", "OPTIONS"}
+	mu := rs.Universe{Tokens: []string{"{x}"}, Roots: []string{"/m"}, MaxSub: 1, Segs: []string{"m", "1"}, MaxPath: 2, RMethods: allMethods}
+	mreqs := crossReqs(mu.Paths(), allMethods, rs.PathSweepHeaders[:1], false)
+	out = append(out, sweep{"M1", rm.Curly, singles(pathAtoms(mu)), mreqs}, sweep{"M2", rm.Curly, pairs(pathAtoms(mu)), mreqs})
 	hu := rs.QuickHeaders()
 	if tier == "thorough" {
 		hu = rs.ThoroughHeaders()
